@@ -84,4 +84,9 @@ TEXT = {
         "level": "Generated parameter sets run for 5..60 real consecutive mint epochs on a real app; every epoch block's bank events and the supply/minter queries are compared with the schedule (minted = floor(provision), per-destination floors, community pool remainder, empty mint account, reported supply + minted, reduction exactly at lastReduction + period, nothing before the start epoch).",
         "note": "Trusted: the SDK's bank events as a faithful ledger (cross-checked by the mint-account balance and the supply queries). Parameters are set through the keeper's SetParams/SetMinter. Provisions above the developer vesting balance (hook failure) belong to C17's integrated part.",
     },
+    "C10": {
+        "technique": "runtime monitor: reference-model (price-segment list observed by the monitor at every block end) differential check of every TWAP query; before/after comparison across pruning passes",
+        "level": "Real blocks with irregular times over balancer, stableswap and concentrated pools (incl. emptied/refilled pool for spot-price errors, pruning epochs with 2h..48h keep periods); hundreds of arithmetic/geometric/ToNow queries per history compared with the time-weighted mean over canonical milliseconds (arithmetic exact to the final truncation, geometric within half a unit of the last kept significant figure), min/max bounds, reciprocity, error flag, stability across pruning.",
+        "note": "Trusted: RouteCalculateSpotPrice as the source of the end-of-block prices (the property is about averaging, not about the spot price), the harness's 700-bit log2/2^x. The asset1-quoted geometric TWAP is compared with the reciprocal of the asset0-quoted mean (the statement's reciprocity clause). Known finding: geometric TWAP answers 0 when the mean log is exactly 0.",
+    },
 }
